@@ -9,13 +9,13 @@ CHECK = {
   'id': 'C04',
   'level': 'model_checking',
   'rule': ('explicit-state BFS to fixpoint, per container kind, over histories of push/pop/append/push_at/pop_at/set/rem/concat/assign/'
-           'resize/sort/copy on one real Array, List or Tuple with element values {0,1,2} and a length bound (operations that would exceed '
+           'resize/sort/copy (arguments external objects and, for Array/List, elements of the receiver itself) on one real Array, List or Tuple with element values {0,1,2} and a length bound (operations that would exceed '
            'it are not enabled); a state is the element sequence plus, for Array (white-box), the pair (nitems,nslots), so every growth and '
            'shrink of the backing store below the bound is a distinct state; every state is re-entered by replaying its shortest history on a '
            'fresh container; in every state len, get(+i), get(-i), mem and forward iteration are compared with a C array; '
            'distinct_nontrivial = states holding a duplicate value or (Array) spare capacity; ladders cover capacity arithmetic to length 300'),
   'bounds': {
-    'quick': 'length <= 6 (Array white-box, List, Tuple; gcc), <= 5 black-box Array, <= 4 under ASan+UBSan; alphabet 159-189 operations incl. '
+    'quick': 'length <= 6 (Array white-box, List, Tuple; gcc), <= 5 black-box Array, <= 4 under ASan+UBSan; alphabet 189-273 operations incl. '
              'every in-range positive and negative index and concat/assign with all 13 sequences of length <= 2 as Array, List and Tuple; ladders to 300 (150 under ASan)',
     'thorough': 'length <= 8 (Array), <= 9 (List, Tuple), <= 6 black-box, <= 7 under ASan+UBSan; ladders to 1000 / 600 (300 under ASan)',
   },
@@ -26,6 +26,10 @@ CHECK = {
     'resize(n > len), any Tuple resize) are explored but judged only for "no corruption, old elements and their order preserved"; the reference follows the implementation there',
     'Array/List := Tuple yields a container of Ref (Tuple declares no element type); it is checked on a side object (len and referenced values) and not explored further',
     'List does not implement Sort; sort is explored for Array and Tuple',
+    'aliasing calls whose argument is an element of the receiver (push/append/push_at/set of get(x,k)) are part of the Array and List alphabets '
+    'wherever the pinned library handles them (Array pushes only in states with spare capacity, white-box); the aliasing calls it does not handle - '
+    'Array push of an own element when the store must grow, concat(x,x), assign(x,x) - are opt-in (alias=3|5|9, see OPTIN below and proposed/seq-alias-*.md); '
+    'for a Tuple an aliasing push means holding one object twice (D16)',
     'a Tuple holding the same object twice is a separate opt-in dimension (instance tuple-same-object, known defect D16 of C11)',
     'white-box view obtained by compiling the repository\'s own Array.c and List.c into the harness; one instance runs black-box',
     'gcc/clang, glibc and the sanitizer run-times are trusted',
@@ -63,3 +67,13 @@ CHECK = {
     ],
   },
 }
+
+# Opt-in instances: each offers calls on which the pinned library misbehaves (own proposal each); they are NOT run by
+# bin/check.  Move one into CHECK['instances'] once its repair is committed or its label is listed as a known finding.
+OPTIN = [
+  S('array-alias-grow-asan', 'asan', 'kind=array', 'maxlen=4', 'alias=3'),      # proposed/seq-alias-array-push-own-element.md
+  S('array-alias-concat-self-asan', 'asan', 'kind=array', 'maxlen=4', 'alias=5'),  # proposed/seq-alias-concat-self.md
+  S('list-alias-concat-self', 'base', 'kind=list', 'maxlen=4', 'alias=5'),          # hangs on the pinned tree (60 s watchdog)
+  S('array-alias-assign-self', 'base', 'kind=array', 'maxlen=4', 'alias=9'),        # proposed/seq-alias-assign-self.md
+  S('list-alias-assign-self', 'base', 'kind=list', 'maxlen=4', 'alias=9'),
+]
